@@ -17,6 +17,16 @@ the repository suite passes with the patch, the demonstration fails with the pat
 under `seeded/`; {missed} of them were missed by the first version of the owning check and led to the
 strengthening described in their `meta.json` (`note`) and in section 7; all {n} are caught now.
 
+**Cross-over seeds.** Some changes were written against one property but violate a clause that
+another property owns (a sentence-update defect written for C02 or C10, a parse-content defect
+written for C05, a serialised-form defect written for C01, a feature-extraction defect written for
+C09, a cross-feature defect written for C07). The owning check (C05/C08, C03, C14, C10, C13) caught
+them; the check of the property the author named stayed silent because its clause is not violated
+(C02 builds its sentences from labels, C05 judges totality and consistency, C01 scores direct
+predictors, ...). They are listed with the checks that catch them and as "missed" by the named
+check; where the owning check needed a new family that is stated in the note. Duplicates of an
+earlier seed (same patch) were not stored again.
+
 """ + "\n".join(rows) + "\n"
 p = '/verif/DESIGN.md'
 s = open(p).read()
